@@ -494,3 +494,241 @@ if __name__ == "__main__":
     if len(sys.argv) > 1:
         for f in family("quick")[: int(sys.argv[1])]:
             print(f["name"], "|", " ".join("??" if b < 0 else "%02x" % b for b in f["bytes"]), "|", f["outcome"])
+
+
+# ----------------------------------------------------------------------------------------------
+# construction programs (trees assembled through the public construction API)
+# ----------------------------------------------------------------------------------------------
+class _Prog:
+    def __init__(self):
+        self.lines = []
+        self.dlen = 0
+        self.nvar = 0
+        self.shared = {}
+
+    def alloc(self, n):
+        off = self.dlen
+        self.dlen += n
+        return off
+
+    def var(self):
+        self.nvar += 1
+        return "v%d" % self.nvar
+
+
+INT_W = {8: 0, 16: 1, 32: 2, 64: 3}
+
+
+def _emit(spec, P):
+    """spec -> (C variable holding one client-owned reference, expected nodes in pre-order)."""
+    k = spec[0]
+    v = P.var()
+    L = P.lines
+    if k in ("uint", "negint"):
+        bits = spec[1]
+        via_new = len(spec) > 2 and spec[2] == "new"
+        off = P.alloc(bits // 8)
+        val = "(uint%d_t)rd(D,%d,%d)" % (bits, off, bits // 8)
+        if via_new:
+            L.append("cbor_item_t* %s = cbor_new_int%d(); __CPROVER_assume(%s); cbor_mark_%s(%s); cbor_set_uint%d(%s, %s);" % (v, bits, v, k, v, bits, v, val))
+        else:
+            L.append("cbor_item_t* %s = cbor_build_%s%d(%s); __CPROVER_assume(%s);" % (v, k, bits, val, v))
+        return v, [dict(kind=X_UINT if k == "uint" else X_NEGINT, w=INT_W[bits], n=0, off=off, argw=bits // 8)]
+    if k == "f16":
+        off = P.alloc(2)
+        L.append("cbor_item_t* %s = cbor_build_float2(half_val((uint16_t)rd(D,%d,2))); __CPROVER_assume(%s);" % (v, off, v))
+        return v, [dict(kind=X_F16, w=0, n=0, off=off, argw=2)]
+    if k == "f32":
+        off = P.alloc(4)
+        L.append("cbor_item_t* %s = cbor_build_float4(bits_f32((uint32_t)rd(D,%d,4))); __CPROVER_assume(%s);" % (v, off, v))
+        return v, [dict(kind=X_F32, w=0, n=0, off=off, argw=4)]
+    if k == "f64":
+        off = P.alloc(8)
+        L.append("cbor_item_t* %s = cbor_build_float8(bits_f64(rd(D,%d,8))); __CPROVER_assume(%s);" % (v, off, v))
+        return v, [dict(kind=X_F64, w=0, n=0, off=off, argw=8)]
+    if k == "ctrl":
+        n = spec[1]
+        how = {20: "cbor_build_bool(false)", 21: "cbor_build_bool(true)", 22: "cbor_new_null()", 23: "cbor_new_undef()"}[n]
+        if len(spec) > 2 and spec[2] == "ctrl":
+            how = "cbor_build_ctrl(%d)" % n
+        L.append("cbor_item_t* %s = %s; __CPROVER_assume(%s);" % (v, how, v))
+        return v, [dict(kind=X_CTRL, w=0, n=n, off=-1, argw=0)]
+    if k in ("bstr", "tstr"):
+        ln = spec[1]
+        off = P.alloc(ln)
+        if len(spec) > 2 and spec[2] == "handle":
+            fn = "bytestring" if k == "bstr" else "string"
+            L.append("cbor_item_t* %s = cbor_new_definite_%s(); __CPROVER_assume(%s); { unsigned char* h = _cbor_malloc(%d); __CPROVER_assume(h); "
+                     "for (int i = 0; i < %d; i++) h[i] = D[%d + i]; cbor_%s_set_handle(%s, h, %d); }" % (v, fn, v, ln, ln, off, fn, v, ln))
+        elif k == "bstr":
+            L.append("cbor_item_t* %s = cbor_build_bytestring(D + %d, %d); __CPROVER_assume(%s);" % (v, off, ln, v))
+        else:
+            L.append("cbor_item_t* %s = cbor_build_stringn((const char*)D + %d, %d); __CPROVER_assume(%s);" % (v, off, ln, v))
+        return v, [dict(kind=X_BSTR if k == "bstr" else X_TSTR, w=0, n=ln, off=off, argw=0)]
+    if k in ("ibstr", "itstr"):
+        fn = "bytestring" if k == "ibstr" else "string"
+        L.append("cbor_item_t* %s = cbor_new_indefinite_%s(); __CPROVER_assume(%s);" % (v, fn, v))
+        nodes = [dict(kind=X_IBSTR if k == "ibstr" else X_ITSTR, w=0, n=len(spec[1]), off=-1, argw=0)]
+        for ch in spec[1]:
+            cv, cn = _emit(ch, P)
+            L.append("{ bool ok = cbor_%s_add_chunk(%s, %s); __CPROVER_assume(ok); cbor_decref(&%s); }" % (fn, v, cv, cv))
+            nodes += cn
+        return v, nodes
+    if k in ("arr", "iarr"):
+        kids = spec[2] if k == "arr" else spec[1]
+        if k == "arr":
+            L.append("cbor_item_t* %s = cbor_new_definite_array(%d); __CPROVER_assume(%s);" % (v, spec[1], v))
+            nodes = [dict(kind=X_ARR, w=1 if spec[1] != len(kids) else 0, n=len(kids), off=-1, argw=0)]
+        else:
+            L.append("cbor_item_t* %s = cbor_new_indefinite_array(); __CPROVER_assume(%s);" % (v, v))
+            nodes = [dict(kind=X_IARR, w=0, n=len(kids), off=-1, argw=0)]
+        for i, ch in enumerate(kids):
+            cv, cn = _emit_child(ch, P)
+            how = "cbor_array_push(%s, %s)" % (v, cv) if i % 2 == 0 else "cbor_array_set(%s, %d, %s)" % (v, i, cv)
+            L.append("{ bool ok = %s; __CPROVER_assume(ok); }" % how)
+            _release(ch, cv, P)
+            nodes += cn
+        return v, nodes
+    if k in ("map", "imap"):
+        pairs = spec[2] if k == "map" else spec[1]
+        if k == "map":
+            L.append("cbor_item_t* %s = cbor_new_definite_map(%d); __CPROVER_assume(%s);" % (v, spec[1], v))
+            nodes = [dict(kind=X_MAP, w=1 if spec[1] != len(pairs) else 0, n=len(pairs), off=-1, argw=0)]
+        else:
+            L.append("cbor_item_t* %s = cbor_new_indefinite_map(); __CPROVER_assume(%s);" % (v, v))
+            nodes = [dict(kind=X_IMAP, w=0, n=len(pairs), off=-1, argw=0)]
+        for (ks, vs) in pairs:
+            kv, kn = _emit_child(ks, P)
+            vv, vn = _emit_child(vs, P)
+            L.append("{ bool ok = cbor_map_add(%s, (struct cbor_pair){.key = %s, .value = %s}); __CPROVER_assume(ok); }" % (v, kv, vv))
+            _release(ks, kv, P)
+            _release(vs, vv, P)
+            nodes += kn + vn
+        return v, nodes
+    if k == "tag" and len(spec) > 2 and spec[2] == "const":
+        cv, cn = _emit_child(spec[1], P)
+        L.append("cbor_item_t* %s = cbor_build_tag(%dULL, %s); __CPROVER_assume(%s);" % (v, spec[3], cv, v))
+        _release(spec[1], cv, P)
+        return v, [dict(kind=X_TAG, w=0, n=spec[3], off=-1, argw=0)] + cn
+    if k == "tag":
+        cv, cn = _emit_child(spec[1], P)
+        off = P.alloc(8)
+        if len(spec) > 2 and spec[2] == "set":
+            L.append("cbor_item_t* %s = cbor_new_tag(rd(D,%d,8)); __CPROVER_assume(%s); cbor_tag_set_item(%s, %s);" % (v, off, v, v, cv))
+        else:
+            L.append("cbor_item_t* %s = cbor_build_tag(rd(D,%d,8), %s); __CPROVER_assume(%s);" % (v, off, cv, v))
+        _release(spec[1], cv, P)
+        return v, [dict(kind=X_TAG, w=0, n=0, off=off, argw=8)] + cn
+    raise ValueError(spec)
+
+
+def _emit_child(ch, P):
+    """('shared', name, spec): the same item referenced from several places (built once)."""
+    if ch[0] == "shared":
+        name = ch[1]
+        if name not in P.shared:
+            cv, cn = _emit(ch[2], P)
+            P.shared[name] = (cv, cn, 0)
+        cv, cn, uses = P.shared[name]
+        P.shared[name] = (cv, cn, uses + 1)
+        return cv, [dict(x) for x in cn]
+    return _emit(ch, P)
+
+
+def _release(ch, cv, P):
+    if ch[0] == "shared":
+        return  # the client keeps its reference until the end of the program (released by the harness epilogue)
+    P.lines.append("cbor_decref(&%s);" % cv)
+
+
+def build_case(name, spec):
+    P = _Prog()
+    root, nodes = _emit(spec, P)
+    # expected refcounts: 1 everywhere except shared items (number of containers holding them), set after the client drops its own reference
+    for sname, (cv, cn, uses) in P.shared.items():
+        P.lines.append("cbor_decref(&%s); /* client drops its reference to shared item %s */" % (cv, sname))
+    shared_rc = {}
+    for sname, (cv, cn, uses) in P.shared.items():
+        shared_rc[id(cn)] = uses
+    o = Outcome(True, read=0, nodes=nodes, depth=0)
+    return dict(name=name, bytes=[SYM] * max(P.dlen, 1), outcome=o, code=P.lines, root=root, built=True,
+                shared={sname: uses for sname, (cv, cn, uses) in P.shared.items()}, truncs=[], in_S=False, nheads=len(nodes), status="complete", k=0)
+
+
+def construction_family(tier):
+    U = lambda b, *a: ("uint", b) + a
+    N = lambda b, *a: ("negint", b) + a
+    fam = []
+    add = lambda n, s: fam.append(build_case(n, s))
+    # every builder at top level, every width
+    for b in (8, 16, 32, 64):
+        add("build_uint%d" % b, U(b)); add("build_negint%d" % b, N(b)); add("new_int%d_marked_negint" % b, N(b, "new")); add("new_int%d_marked_uint" % b, U(b, "new"))
+    add("build_float2", ("f16",)); add("build_float4", ("f32",)); add("build_float8", ("f64",))
+    for c in (20, 21, 22, 23):
+        add("ctrl_%d" % c, ("ctrl", c)); add("build_ctrl_%d" % c, ("ctrl", c, "ctrl"))
+    for ln in (0, 1, 3):
+        add("build_bytestring_%d" % ln, ("bstr", ln)); add("build_stringn_%d" % ln, ("tstr", ln))
+        add("bytestring_set_handle_%d" % ln, ("bstr", ln, "handle")); add("string_set_handle_%d" % ln, ("tstr", ln, "handle"))
+    # chunked strings: zero, one, multi chunk (incl. empty chunks)
+    add("indef_bytestring_0chunks", ("ibstr", [])); add("indef_string_0chunks", ("itstr", []))
+    add("indef_bytestring_3chunks", ("ibstr", [("bstr", 1), ("bstr", 0), ("bstr", 2)]))
+    add("indef_string_2chunks", ("itstr", [("tstr", 2), ("tstr", 1)]))
+    # arrays: definite full / partially filled / empty, indefinite 0..3 (growth 0->1->2->4)
+    add("def_array_0_of_0", ("arr", 0, [])); add("def_array_0_of_2", ("arr", 2, []))
+    add("def_array_2_of_3", ("arr", 3, [U(8), N(16)])); add("def_array_3_of_3", ("arr", 3, [U(64), ("tstr", 1), ("ctrl", 21)]))
+    add("indef_array_0", ("iarr", [])); add("indef_array_1", ("iarr", [("f16",)])); add("indef_array_3", ("iarr", [U(8), ("f32",), ("bstr", 2)]))
+    # maps
+    add("def_map_0_of_0", ("map", 0, [])); add("def_map_1_of_2", ("map", 2, [(U(8), ("tstr", 2))]))
+    add("def_map_2_of_2", ("map", 2, [(("tstr", 1), N(32)), (("ibstr", [("bstr", 1)]), ("f64",))]))
+    add("indef_map_0", ("imap", [])); add("indef_map_3", ("imap", [(U(8), U(16)), (N(8), ("ctrl", 22)), (("tstr", 0), ("arr", 0, []))]))
+    # tags
+    add("tag_leaf", ("tag", U(8))); add("tag_set_item", ("tag", ("tstr", 2), "set")); add("tag_nested3", ("tag", ("tag", ("tag", N(64), "const", 5), "const", 1000)))
+    add("tag_const_2pow32", ("tag", U(8), "const", 1 << 32)); add("tag_const_65535", ("tag", ("ctrl", 20), "const", 65535))
+    # nesting depth 3, mixed
+    add("nested_mixed", ("iarr", [("map", 1, [(U(8), ("arr", 2, [("tag", ("f16",)), ("ibstr", [])]))]), ("itstr", [("tstr", 1)])]))
+    add("array_in_map_in_tag", ("tag", ("imap", [(("arr", 1, [U(16)]), ("iarr", [("ctrl", 20), ("ctrl", 23)]))])))
+    # shared sub-items
+    add("shared_leaf_twice_in_array", ("iarr", [("shared", "s", U(32)), ("shared", "s", U(32))]))
+    add("shared_string_in_array_and_map", ("arr", 2, [("shared", "s", ("tstr", 2)), ("imap", [(("shared", "s", ("tstr", 2)), U(8))])]))
+    add("shared_array_key_and_value", ("map", 1, [(("shared", "a", ("arr", 1, [N(8)])), ("shared", "a", ("arr", 1, [N(8)])))]))
+    return fam
+
+
+def c_trees(batch, limit=2048):
+    """Tables + one constructor function per case: mk_k(D) returns the tree (decoded from D for skeleton cases, assembled by
+    construction calls for construction cases)."""
+    parts = ["/* generated by lib/skeleton.py -- do not edit */", '#include "tree.h"', '#include "treeops.h"']
+    for i, s in enumerate(batch):
+        o = s["outcome"]
+        n = len(s["bytes"])
+        parts.append("/* tree %d: %s */" % (i, s["name"]))
+        parts.append("static const int16_t SK_%d[] = {%s};" % (i, ",".join(str(b) for b in s["bytes"])))
+        parts.append("static const struct xnode XN_%d[] = {%s};" % (i, c_nodes(o.nodes)))
+        parts.append("static const struct xcase XC_%d = {SK_%d, %d, XN_%d, %d, 0, 0, %d};" % (i, i, n, i, len(o.nodes), o.depth))
+        if s.get("built"):
+            body = "\n  ".join(s["code"])
+            parts.append("static cbor_item_t* mk_%d(const unsigned char* D) {\n  %s\n  return %s;\n}" % (i, body, s["root"]))
+            parts.append("#define SHARED_%d %d" % (i, 1 if s["shared"] else 0))
+        else:
+            parts.append("static cbor_item_t* mk_%d(const unsigned char* D) { return load_tree(D, %d); }" % (i, n))
+            parts.append("#define SHARED_%d 0" % i)
+    def maxout(nodes):
+        t = 0
+        for x in nodes:
+            k = x["kind"]
+            if k in (X_BSTR, X_TSTR):
+                t += 1 + x["n"] + (0 if x["n"] < 24 else 1)
+            elif k in (X_IBSTR, X_ITSTR, X_IARR, X_IMAP):
+                t += 2
+            elif k in (X_ARR, X_MAP, X_CTRL):
+                t += 1
+            else:
+                t += 1 + max(x["argw"], 1 if k in (X_UINT, X_NEGINT) else 0)
+        return t
+    parts.append("#define MAX_OUT %d" % max(maxout(s["outcome"].nodes) for s in batch))
+    parts.append("#define NCASES %d" % len(batch))
+    parts.append("#define FOR_EACH_TREE(F) " + " ".join("F(%d, &XC_%d, mk_%d, SHARED_%d, %d);" % (i, i, i, i, 1 if s.get("built") else 0) for i, s in enumerate(batch)))
+    parts.append("#define MAX_SK %d" % max(len(s["bytes"]) for s in batch))
+    parts.append("#define MAX_NODES %d" % max([len(s["outcome"].nodes) for s in batch] + [1]))
+    parts.append("#define MAX_DEPTH %d" % max(s["outcome"].depth for s in batch))
+    return "\n".join(parts) + "\n"
